@@ -53,6 +53,7 @@ import PubgrubProofs.RangeTermination
 import PubgrubProofs.Decides
 import PubgrubProofs.Typed
 import PubgrubProofs.Examples
+import PubgrubProofs.CounterBounds
 
 namespace Pubgrub.C05
 open Pubgrub
@@ -185,6 +186,19 @@ theorem C05_resolve_terminates (W : World P S V M) (hW : W.SetsValid) (root : P)
       (Solver.after (Solver.start debug fuel root rv) as).2.isFinal = true ∧
       (Solver.after (Solver.start debug fuel root rv) as).2 ≠ .fault .outOfFuel :=
   resolve_terminates W hW root rv fw debug
+
+/-- "does not overflow", as far as it can be had: along every well-behaved run over a finite registry, while
+`resolve` has not returned, the decision level is at most the number of packages of the registry (the Rust
+`DecisionLevel(u32)` cannot wrap for a registry with fewer than 2^32 packages) and the next global index is at
+most `Cmax fw` -/
+theorem C05_counters_bounded (W : World P S V M) (hW : W.SetsValid) (root : P) (rv : V)
+    (fw : FiniteWorld W root rv) (debug : Bool) :
+    ∃ fuel0 : Nat, ∀ fuel, fuel0 ≤ fuel → ∀ as : List (Answer P S V M Pr E),
+      WellBehavedRun W debug fuel root rv as →
+      (Solver.after (Solver.start debug fuel root rv) as).1.phase ≠ .finished →
+      (Solver.after (Solver.start debug fuel root rv) as).1.st.ps.currentDecisionLevel ≤ fw.pkgs.length ∧
+      (Solver.after (Solver.start debug fuel root rv) as).1.st.ps.nextGlobalIndex ≤ Cmax fw :=
+  counters_bounded W hW root rv fw debug
 
 /-- the sharp form: the FIRST final request comes within `N` answers and is `Ok(sel)` with `sel` a
 solution, or `NoSolution` with no solution existing (or the model's `protocolError` for an ill-typed
